@@ -16,7 +16,9 @@
 (*           (FDE); instr carries the opcode byte and the operands of one  *)
 (*           element of the public instruction list; end carries the rows  *)
 (*           of get_decoded().table (exc = get_decoded() raised).          *)
-(* Checked: entries tile the section; kind agrees with the id field; the   *)
+(* Checked: entries tile the section (up to its end, or - the other reading  *)
+(* of LSB 10.6.1.1 "processing shall end", see the header of CFI.tla - up   *)
+(* to and including a zero terminator); kind agrees with the id field; the  *)
 (* linked CIE is the designated one and is a CIE of the section; the       *)
 (* library's table equals the model's table as a function location ->      *)
 (* (CFA rule, register rules) (the comparison of binding G: later row at   *)
@@ -49,12 +51,12 @@ Z8 == LEn(0, 8)
 Idle == [tid |-> 0, kind |-> "", off |-> 0, sr |-> [st |-> C!St0(Z8), rows |-> <<>>], srd |-> [st |-> C!St0(Z8), rows |-> <<>>],
          ctx |-> C!Ctx(1, 1, {}, FALSE, FALSE), ctxd |-> C!Ctx(1, 1, {}, FALSE, TRUE), caf |-> 1, daf |-> 1,
          dead |-> TRUE, restored |-> FALSE]
-Init == /\ l = 1 /\ scan = [sk |-> "", nxt |-> 0, cies |-> {}, want |-> {}] /\ fin = <<>>
+Init == /\ l = 1 /\ scan = [sk |-> "", nxt |-> 0, cies |-> {}, want |-> {}, z |-> FALSE] /\ fin = <<>>
         /\ cur = Idle /\ bad = {} /\ skipped = {}
         /\ stats = [entries |-> 0, traces |-> 0, rows |-> 0, instrs |-> 0]
 
 \* ------------------------------------------------------------------ scan
-SecBegin(e) == /\ scan' = [sk |-> e.sk, nxt |-> 0, cies |-> {}, want |-> {}] /\ fin' = <<>> /\ cur' = Idle
+SecBegin(e) == /\ scan' = [sk |-> e.sk, nxt |-> 0, cies |-> {}, want |-> {}, z |-> FALSE] /\ fin' = <<>> /\ cur' = Idle
                /\ UNCHANGED <<bad, skipped, stats>>
 SmallField(ds) == \A i \in DOMAIN ds : (i >= 4 => ds[i] = 0)          \* < 2^24: safe for NatOf
 Entry(e) ==
@@ -74,12 +76,13 @@ Entry(e) ==
   IN /\ bad' = bad \cup fails
      /\ skipped' = IF e.kind = "FDE" /\ ~judgeLink THEN skipped \cup {<<e.tid, l, "cie_pointer_beyond_model_range">>} ELSE skipped
      /\ scan' = [scan EXCEPT !.nxt = e.off + (IF e.kind = "ZERO" THEN 4 ELSE hdr + e.len),
+                             !.z = (e.kind = "ZERO"),          \* the last entry reported so far is a terminator
                              !.cies = IF e.kind = "CIE" THEN @ \cup {e.off} ELSE @,
                              !.want = IF e.kind = "FDE" THEN @ \cup {e.cieoff} ELSE @]
      /\ stats' = [stats EXCEPT !.entries = @ + 1]
      /\ UNCHANGED <<fin, cur>>
 SecEnd(e) ==
-  /\ bad' = bad \cup (IF scan.nxt # e.size THEN {<<e.tid, l, "scan.section_end">>} ELSE {})
+  /\ bad' = bad \cup (IF scan.nxt # e.size /\ ~scan.z THEN {<<e.tid, l, "scan.section_end">>} ELSE {})
                 \cup (IF ~(scan.want \subseteq scan.cies) THEN {<<e.tid, l, "scan.linked_cie_not_in_section">>} ELSE {})
   /\ UNCHANGED <<scan, fin, cur, skipped, stats>>
 
